@@ -93,6 +93,8 @@ def run(ctx, rep):
     rep.rule("I3", "num_variables of each tomography class = (variable index of the last free object entry) + 1 under both flags", floor=8)
     rep.rule("I4", "SetQOperations enumerates the four kinds in one order in var_total, the first-index map, the mode lookup, "
                    "_all_qoperations and set_qoperations_from_var_total", floor=5)
+    rep.rule("I4b", "within one kind, the first variable index of item k is the sum of the sizes of items 0..k-1: every accumulation "
+                    "loop in SetQOperations adds the size of the item its loop variable points at", floor=2)
     rep.rule("I5", "implied constants and their positions agree at every site: state coefficient 0 = d^-1/2; POVM total = d^1/2 e0 "
                    "(d^1/2/m per element); gate row 0 = e0; measurement-process implied row = e0 - sum of first rows, at the last block", floor=12)
     rep.rule("I6", "slot conformance for the four types (shared with C02 R5)", floor=28)
@@ -109,6 +111,7 @@ def run(ctx, rep):
         _check_onehot(ctx, rep, kind, ix.func(gq), ix.func(MAPS[kind][0]))
     # ---------------------------------------------------------------------- I4
     _check_kind_order(ctx, rep)
+    _check_prefix_sums(ctx, rep)
     # ---------------------------------------------------------------------- I5 / I8
     _check_constants(ctx, rep)
     # ---------------------------------------------------------------------- I6
@@ -476,6 +479,33 @@ def _check_kind_order(ctx, rep):
             ok = cum and sl and ln
             why = "slices are not cumulative over the object's own variable length"
     rep.check(ok, "I4", sq, "slicing loop", "iterates _all_qoperations() with cumulative slices of len(to_var())", why, node=sq.node)
+
+
+def _check_prefix_sums(ctx, rep):
+    """offset loops: `for i in range(k): acc += size(i)` / `for i, _ in enumerate(items): size = f(i); ...; acc += size`"""
+    c = ctx.ix.cls(OBJ + "qoperations.SetQOperations")
+    for m in c.methods.values():
+        for lp in [n for n in own_nodes(m.node) if isinstance(n, ast.For)]:
+            lvars = {x.id for x in ast.walk(lp.target) if isinstance(x, ast.Name) and not x.id.startswith("_")}
+            accs = [s for s in lp.body if isinstance(s, ast.AugAssign) and isinstance(s.op, ast.Add) and isinstance(s.target, ast.Name)]
+            if not accs or not lvars:
+                continue
+            body_defs = {unparse(s.targets[0]): s.value for s in lp.body if isinstance(s, ast.Assign) and isinstance(s.targets[0], ast.Name)}
+            for a in accs:
+                e = a.value
+                if isinstance(e, ast.Name) and e.id in body_defs:
+                    e = body_defs[e.id]
+                calls = [x for x in ast.walk(e) if isinstance(x, ast.Call)]
+                if not calls:
+                    continue
+                used = {x.id for x in ast.walk(e) if isinstance(x, ast.Name)}
+                con = "%s: %s" % (m.name, unparse(a))
+                if used & lvars:
+                    rep.holds("I4b", m, con, "summand is the size of the item the loop variable points at", node=a)
+                else:
+                    rep.violation("I4b", m, con, "the summand %s does not depend on the loop variable %s: the offset becomes (count) x (one size) "
+                                                 "instead of the sum of the preceding sizes, which differs as soon as items of one kind have "
+                                                 "different variable counts" % (unparse(e), sorted(lvars)), node=a)
 
 
 # ------------------------------------------------------------------------------ I5
